@@ -25,6 +25,8 @@ def all_numeric_outside_table():
 
 
 def worker(unit, emit):
+    if unit[0] == '__doctests__':
+        return ac.doctest_traces(emit)
     name, scripts1, p = unit
     mod = lib.module(name)
     rnd = random.Random('%s/%s' % (p['seed'], name))
@@ -93,7 +95,7 @@ def main():
     if quick:
         allnum = {k: rnd.sample(v, min(len(v), 12)) for k, v in allnum.items()}
     p = {'seed': chk.seed, 'bases': 3 if quick else 20, 'k': 2 if quick else 6, 'opt_p': 0.2 if quick else 1.0, 'allnum': allnum, 'special_bases': 150 if quick else 2000}
-    units = [(name, scripts1, p) for name, _ in lib.modules()]
+    units = [(name, scripts1, p) for name, _ in lib.modules()] + [('__doctests__',)]
     shards = chk.drive(units, worker)
     extra = run.merge_extra(shards)
     rej = chk.validate('Trace_Api', shards, own_clauses=OWN)
